@@ -6,7 +6,9 @@ from impl import RSTWriter, Settings
 TXT = ['x', 'two\nlines', '  lead', 'a\n\n  b', '', 'ünï ✓', '   deep\n lead\n', 'tab\there', ':field: like', '.. dots', '* star']
 ONE = ['v', '', 'w w', 'é', '  sp', ':x:', 'a,b']
 NAMES = ['note', 'function', 'py:class', 'toctree', 'warning', 'x-y']
-TITLES = ['T', 'Title', 'Tïtle long ✓', '', 'a b c', 'x' * 30]
+TITLES = ['T', 'Title', 'Tïtle long ✓', '', 'a b c', 'x' * 30,
+          # length = code points, not display columns: East-Asian wide, fullwidth and halfwidth forms, combining marks, astral
+          '日本語のモジュール', 'ＡＰＩ reference', 'Cafe\u0301 module', '한국어 ｶﾀｶﾅ', 'a\u0300\u0323 \u0e01\u0e34\u0e48', '😀 emoji x']
 
 
 def ind(d): return '   ' * d
